@@ -33,6 +33,25 @@ def trace_cfg(front, dev=None):
     return p
 
 
+def check_witnesses(module, cfg_all, names):
+    """Each witness W_x == ~(situation) must be VIOLATED (the situation is reachable). One short TLC run
+    per witness (TLC stops at the first violation), run concurrently."""
+    from concurrent.futures import ThreadPoolExecutor
+    base = open(cfg_all).read()
+
+    def one(w):
+        p = cfg_all.replace('.cfg', '-%s.cfg' % w)
+        lines = [l for l in base.splitlines() if not l.startswith('INVARIANT') and not l.startswith('PROPERTY')]
+        with open(p, 'w') as f:
+            f.write('\n'.join(lines) + '\nINVARIANT %s\n' % w)
+        r = tlc.run(module, p, workers=2, heavy=False, timeout=600, tag='w-' + w)
+        return w, r.violated
+    with ThreadPoolExecutor(len(names)) as ex:
+        for w, v in ex.map(one, names):
+            if v != w:
+                raise tlc.MachineryError('witness %s not reachable (TLC reported %r)' % (w, v))
+
+
 def stage_a(ctx, configs, required=('Attach', 'AttachDup', 'Detach', 'RecvInterest', 'Tick', 'Shutdown', 'RecvJunk')):
     cov_total = {}
     for label, cfgp in configs:
@@ -48,10 +67,7 @@ def stage_a(ctx, configs, required=('Attach', 'AttachDup', 'Detach', 'RecvIntere
             raise tlc.MachineryError('vacuous: NdnFib action %s never taken in stage A' % a)
     ctx.extra.setdefault('action_coverage', {}).update({'Fib.' + k: v for k, v in cov_total.items()})
     wp = mc_cfg('fib-w', 'v2', 'small', 'small', 'v2two', 1, 2, 2, vals='both', reps=1, invs=WITNESSES, props=[])
-    rw = tlc.run('NdnFibMC', wp, workers=4, heavy=False, extra=['-continue'])
-    for w in WITNESSES:
-        if ('Invariant %s is violated' % w) not in rw.out:
-            raise tlc.MachineryError('witness %s not reachable' % w)
+    check_witnesses('NdnFibMC', wp, WITNESSES)
 
 
 def events_of_path(path, vmap=None):
